@@ -526,6 +526,16 @@ func (x *Exec) modularContracts(fn *ssa.Function) []*Contract {
 	for _, c := range x.byFn[fn] {
 		if c.modular {
 			out = append(out, c)
+			continue
+		}
+		// "summarise Type.Method id": within the contract being verified, calls of that function
+		// are seen through its (separately verified) contract of that id
+		if x.cur != nil {
+			for _, sm := range x.cur.summarise {
+				if sm[0] == c.fnName && sm[1] == c.id && c.pkg == x.cur.pkg {
+					out = append(out, c)
+				}
+			}
 		}
 	}
 	return out
@@ -1141,7 +1151,7 @@ func (x *Exec) verifyContract(ct *Contract) (err error) {
 					defer func() {
 						if r := recover(); r != nil {
 							e, ok := r.(engineErr)
-							if !ok || !strings.Contains(e.Error(), "unknown identifier") && !strings.Contains(e.Error(), "undefined on this path") {
+							if !ok || !strings.Contains(e.Error(), "unknown identifier") && !strings.Contains(e.Error(), "undefined on this path") && !strings.Contains(e.Error(), "on nil interface") {
 								panic(r)
 							}
 							why = e.Error()
